@@ -5,6 +5,9 @@ import numpy as np
 def run(req):
     fn = req["fn"]
     a = req.get("args", {})
+    if fn.startswith("mri."):
+        import replay_mri
+        return replay_mri.run(req)
     if fn in ("trajgrad.trap_grad", "trajgrad.min_trap_grad"):
         return _trap(fn, a)
     if fn == "rf.bloch":
